@@ -134,6 +134,16 @@ def mk(kind, *args):
 _MIRROR = {"Eq": "Eq", "NotEq": "NotEq", "Lt": "Gt", "Gt": "Lt", "LtE": "GtE", "GtE": "LtE", "Is": "Is", "IsNot": "IsNot"}
 
 
+def _same_value(a, b):
+  if isinstance(a, Const) and isinstance(b, Const):
+    return type(a.v) is type(b.v) and a.v == b.v
+  if isinstance(a, Poly) and isinstance(b, Poly):
+    return a == b
+  if isinstance(a, Seq) and isinstance(b, Seq):
+    return a.kind == b.kind and repr(a) == repr(b)
+  return False
+
+
 def _is_literal(x):
   if isinstance(x, Const):
     return True
@@ -418,6 +428,9 @@ class Walker:
   def run(self, params=None):
     st = State()
     fn = self.func.node
+    # nodes lexically inside a loop or comprehension (appends there are summarised by the loop machinery, appends in straight-line code are folded)
+    self._in_loop_ids = {id(x) for l_ in ast.walk(fn) if isinstance(l_, (ast.For, ast.While, ast.ListComp, ast.SetComp, ast.DictComp, ast.GeneratorExp))
+                         for x in ast.walk(l_)}
     allargs = list(fn.args.posonlyargs) + list(fn.args.args) + list(fn.args.kwonlyargs)
     for a in allargs:
       name = a.arg
@@ -888,7 +901,7 @@ class Walker:
             cur_ = st.env.get(base.id)
             rp_ = as_poly(cur_) if cur_ is not None else rp
             self.emit("mutate", e, st, method="append", recv=cur_ if cur_ is not None else recv, args=[it_], target=base)
-            if isinstance(cur_, Seq) and cur_.kind == "list" and cur_.items and not isinstance(it_, tuple):
+            if isinstance(cur_, Seq) and cur_.kind == "list" and not isinstance(it_, tuple) and (cur_.items or id(e) not in getattr(self, "_in_loop_ids", {id(e)})):
               st.env[base.id] = Seq(list(cur_.items) + [it_], "list")
             else:
               st.env[base.id] = mk("mut", rp_, P("lit", "append"), as_poly(it_), P("u", next(self.fresh)))
@@ -896,7 +909,8 @@ class Walker:
         self.emit("mutate", e, st, method=m, recv=recv, args=args, target=base)
         if isinstance(base, ast.Name):
           cur = st.env.get(base.id)
-          if m == "append" and len(args) == 1 and not kwargs and isinstance(cur, Seq) and cur.kind == "list" and cur.items and not isinstance(args[0], tuple):
+          if m == "append" and len(args) == 1 and not kwargs and isinstance(cur, Seq) and cur.kind == "list" and not isinstance(args[0], tuple) and \
+             (cur.items or id(e) not in getattr(self, "_in_loop_ids", {id(e)})):
             st.env[base.id] = Seq(list(cur.items) + [args[0]], "list")        # [a, b].append(c) is the literal list [a, b, c]
           else:
             st.env[base.id] = mk("mut", rp, P("lit", m), *pa, P("u", next(self.fresh)))
@@ -1312,6 +1326,9 @@ class Walker:
     if ia is None:
       return None
     elt2 = rebuild(elt.deep_subst(ia, mk("idx", src_f, Poly.atom(bv2))))
+    ra_ = as_poly(itv).as_atom()
+    if ka in elt2.all_atoms() and ra_ is not None and ra_.kind == "range" and len(ra_.args) == 1:
+      elt2 = rebuild(elt2.deep_subst(ka, mk("idx", src_f, Poly.atom(bv2))))          # the items of range(n) are their own positions
     if ka in elt2.all_atoms():
       return None
     return Poly.atom(Atom("map", elt2, bv2, as_poly(src_f)))
@@ -1362,15 +1379,15 @@ class Walker:
       for v in mod:
         h.env[v] = self.sym(v)
         h.last_rhs.pop(v, None)
+      for v, c in chyps.items():
+        h.env[v] = c                # constant invariant: None / bool / string flag that no completed pass changes
       for v, rhs in hyps.items():
         e = self.ev(rhs, h)
         if isinstance(e, Poly):
           h.env[v] = e
       for v, t in thyps.items():
-        if v not in hyps:
+        if v not in hyps and v not in chyps:
           h.facts.append(("truthy" if t else "falsy", h.env[v]))
-      for v, c in chyps.items():
-        h.env[v] = c                # constant invariant: None / bool / string flag that no completed pass changes
       if is_for:
         self.bind_iter_target(n.target, itv, h, k, n)
       else:
@@ -1392,6 +1409,11 @@ class Walker:
       pv = st.env.get(v)
       if isinstance(pv, Const) and (pv.v is None or isinstance(pv.v, (bool, str))) and v not in hyps and not (is_for and v in {x.id for x in ast.walk(n.target) if isinstance(x, ast.Name)}):
         chyps[v] = pv
+      elif v not in hyps and not (is_for and v in {x.id for x in ast.walk(n.target) if isinstance(x, ast.Name)}) and \
+          ((isinstance(pv, Seq) and pv.kind in ("list", "tuple") and pv.items and all(isinstance(x_, Poly) for x_ in pv.items)) or
+           (isinstance(pv, Poly) and not _is_alias(pv))):
+        # likewise a literal list / a value that only a pass which leaves the loop changes (`fs = [g]; for ..: if c: fs = fs + [h]; break`)
+        chyps[v] = pv
     while hyps or thyps or chyps:
       self.quiet += 1
       try:
@@ -1412,12 +1434,17 @@ class Walker:
                 tbad.add(v)
             for v, c in chyps.items():
               have = s.env.get(v)
-              if not (isinstance(have, Const) and type(have.v) is type(c.v) and have.v == c.v):
+              if not _same_value(have, c):
                 cbad.add(v)
       finally:
         self.quiet -= 1
       if not bad and not tbad and not cbad:
         break
+      if cbad:
+        # a refuted value hypothesis may be what made the others fail: drop it alone and try again
+        for v in cbad:
+          chyps.pop(v)
+        continue
       for v in bad:
         hyps.pop(v)
       for v in tbad:
@@ -1520,6 +1547,36 @@ class Walker:
           after.env[v] = mk("concat", pre_v, tail)
         else:
           after.env[v] = tail if not pre_v.items else mk("concat", as_poly(pre_v), tail)
+    # dict-fill summary: `D = {}; for t in it: D[key(t)] = val(t)` (one store per pass on every path, no break, key and value independent of
+    # loop-carried state) is the dict comprehension {key(t): val(t) for t in it}
+    if is_for and not exits and ends and not isinstance(itv, Seq):
+      ka = as_poly(k).as_atom()
+      henv = visit["head"].env
+      for v in mod:
+        pre_v = st.env.get(v)
+        if not (isinstance(pre_v, Poly) and pre_v.as_atom() is not None and pre_v.as_atom().kind == "emptydict") or not isinstance(henv.get(v), Poly):
+          continue
+        hv = henv[v]
+        kvs = []
+        for s2 in ends:
+          cur = s2.env.get(v)
+          a = cur.as_atom() if isinstance(cur, Poly) else None
+          if a is None or a.kind != "upd" or len(a.args) != 3 or a.args[0] != hv or not all(isinstance(x_, Poly) for x_ in a.args[1:]):
+            kvs = None
+            break
+          kvs.append((a.args[1], a.args[2]))
+        if not kvs or any(repr(x_) != repr(kvs[0]) for x_ in kvs):
+          continue
+        carried = set()
+        for v2 in mod:
+          hv2 = henv.get(v2)
+          if isinstance(hv2, Poly) and hv2.as_atom() is not None and hv2.as_atom().kind == "sym" and hv2.as_atom() != ka:
+            carried.add(hv2.as_atom())
+        if ka is None or any(x_ in carried for y_ in kvs[0] for x_ in y_.all_atoms()):
+          continue
+        bv = Atom("bv", "b%d" % next(self.fresh))
+        kv = [rebuild(y_.deep_subst(ka, Poly.atom(bv))) for y_ in kvs[0]]
+        after.env[v] = mk("dictof", Poly.atom(Atom("map", P("seq", *kv), bv, as_poly(itv))))
     for v, t in thyps.items():
       if v not in hyps and isinstance(after.env.get(v), Poly) and after.env[v].as_atom() is not None:
         after.facts.append(("truthy" if t else "falsy", after.env[v]))
